@@ -82,6 +82,11 @@ func c02Gate(o *hx.Out, r *rand.Rand, dname string, d *dialect.Dialect, nmsg int
 	perm := r.Perm(len(d.Messages))
 	for i := 0; i < nmsg; i++ {
 		proto := d.Messages[perm[i]]
+		// the gate needs the dialect's codec of the message: every message of the dialect has one
+		if drw.GetMessage(proto.GetID()) == nil {
+			o.Add("gate-codec", fmt.Sprintf("NO-CODEC-FOR-A-MESSAGE-OF-THE-DIALECT id=%d", proto.GetID()), "expect", "ok", fmt.Sprintf("codec of %s id %d", dname, proto.GetID()))
+			continue
+		}
 		for _, v2 := range []bool{false, true} {
 			msg := hx.RandMessage(r, proto, 2)
 			if !v2 && msg.GetID() > 255 {
